@@ -9,6 +9,7 @@ import (
 	"golang.org/x/sync/errgroup"
 
 	"github.com/avos-io/goat/gen/goatorepo"
+	"github.com/avos-io/goat/internal/verifhook"
 )
 
 const (
@@ -118,8 +119,12 @@ func (p *Proxy) serveClients(ctx context.Context) {
 				p.mutex.Lock()
 				// Only forget the connection that failed, not a newer one attached
 				// under the same name.
+				if verifhook.Enabled && p.clients[cmd.id] != cmd.client {
+					verifhook.Emit("proxy.remove.stale", 0, cmd.id)
+				}
 				if p.clients[cmd.id] == cmd.client {
 					delete(p.clients, cmd.id)
+					verifhook.Emit("proxy.remove", 0, cmd.id)
 				}
 				p.mutex.Unlock()
 				if p.clientDisconnect != nil {
@@ -128,6 +133,7 @@ func (p *Proxy) serveClients(ctx context.Context) {
 			}
 		case <-ctx.Done():
 			log.Warn().Msg("serveClients context cancelled")
+			verifhook.Emit("proxy.serve.exit", 0, "")
 			return
 		}
 	}
@@ -137,6 +143,7 @@ func (p *Proxy) forwardRpc(source string, rpc *goatorepo.Rpc) {
 	// Sanity check RPC first
 	if rpc.Header == nil || rpc.Header.Source != source {
 		log.Warn().Msgf("Bad Rpc from %s: ignoring: %v", source, rpc)
+		verifhook.Emit("proxy.ignore", rpc.GetId(), source)
 		return
 	}
 
@@ -145,6 +152,7 @@ func (p *Proxy) forwardRpc(source string, rpc *goatorepo.Rpc) {
 	if p.rpcIntercepter != nil {
 		err := p.rpcIntercepter(rpc.Header)
 		if err != nil {
+			verifhook.Emit("proxy.refused", rpc.GetId(), source)
 			return
 		}
 	}
@@ -170,13 +178,16 @@ func (p *Proxy) forwardRpc(source string, rpc *goatorepo.Rpc) {
 	p.mutex.Lock()
 	client, ok := p.clients[destination]
 	if !ok {
+		verifhook.Emit("proxy.dial", rpc.GetId(), destination)
 		client = p.addOutgoingConnectionLocked(destination)
 	}
 	p.mutex.Unlock()
 
 	select {
 	case client.fromServer <- rpc:
+		verifhook.Emit("proxy.enqueue", rpc.GetId(), destination)
 	default:
+		verifhook.Emit("proxy.drop", rpc.GetId(), destination)
 		log.Warn().Str("source", rpc.Header.Source).
 			Str("destination", rpc.Header.Destination).
 			Str("method", rpc.Header.Method).
@@ -231,6 +242,7 @@ func (c *proxyClient) readWrite(ctx context.Context) {
 	e.Go(func() error { return c.readLoop(ctx) })
 	e.Go(func() error { return c.writeLoop(ctx) })
 	log.Err(e.Wait()).Caller().Msg("readWrite failed")
+	verifhook.Emit("proxy.conn.exit", 0, c.id)
 }
 
 func (c *proxyClient) connect(ctx context.Context, newConnection NewConnection) {
